@@ -365,6 +365,20 @@ def _decided(e, b) -> bool:
     return b.expr.get_id() in e._decided
 
 
+
+def _x_runner(tier: str, seed: int, workers: int):
+    from xh import c16_x
+    from xh.runner import run_obligations
+
+    return run_obligations("xh.c16_x", c16_x.QUICK, 120 if tier == "quick" else 300, workers=workers, signatures=c16_x.SIGNATURES)
+
+
+def replay_obligation(payload):
+    from xh.runner import replay_call
+
+    return replay_call(payload)
+
+
 def spec(tier: str, seed: int) -> Spec:
     n = 2
     later = ["as_dict"] if tier == "quick" else None
@@ -376,6 +390,7 @@ def spec(tier: str, seed: int) -> Spec:
     fams.append(Family("msgpack-dialect-on-nested-objects", dialect_harness, variables="selectors: nesting depth, tagged / untagged input"))
     return Spec(
         families=fams,
+        obligation_runners=[_x_runner],
         functions=FUNCTIONS,
         bounds={"calls_per_sequence": "2 option-carrying calls (quick: the second is always as_dict with options), each followed by a default as_dict()", "trees": len(TREES), "options": "SKIP_CLASS, SORT_KEYS, SOURCE_OPTIMIZED_SERIALIZATION lazily; dialect none/explorer/test", "fault_schedule": "failure at any nested hooked object (<= 3 per tree)", "corruptions": ["unknown type tag", "missing id", "top-level list", "top-level scalar"]},
         rule="a case = one path = (tree, call sequence, value of every option bit and fault bit the real code consulted, dialect, corruption); distinct by that tuple; non-trivial = at least one option or fault consulted",
